@@ -406,6 +406,11 @@ func runCase(spec *caseSpec) *caseResult {
 			if s.SrvFin || s.SrvRst || s.ClientRst {
 				continue
 			}
+			if s.SrvRstMaybe {
+				if d, _, _, _ := cs.Done(s.Token); d || cs.invokedCount(s.Token) == 0 {
+					continue
+				}
+			}
 			if s.BadSyn != "" {
 				if d, _, _, _ := cs.Done(s.Token); d || cs.invokedCount(s.Token) == 0 {
 					continue
